@@ -243,6 +243,38 @@ def judge_callstacks_table(label, fn):
     return None
 
 
+def judge_file_loader():
+    """from_trace_codes_file: what is loaded is what the file holds NOW - also when the file was replaced without its
+    modification time changing, and for several files in turn."""
+    import os
+    import tempfile
+    from pykdebugparser.trace_codes import from_trace_codes_file
+    d = tempfile.mkdtemp(prefix='verif_codes_')
+    bad = None
+    try:
+        p1, p2 = os.path.join(d, 'a.codes'), os.path.join(d, 'b.codes')
+        texts = ['0x1 A\n0x2 B\n', '0x1 C\n0x3 D #x\n', '', '0X10\tE\n0x1 A\n']
+        open(p2, 'w').write('0x9 Z\n')
+        stamp = None
+        for i, t in enumerate(texts + texts[:2]):
+            with open(p1, 'w') as f:
+                f.write(t)
+            if stamp is None:
+                stamp = os.stat(p1).st_mtime_ns
+            os.utime(p1, ns=(stamp, stamp))          # the replacement keeps the old modification time
+            got = dict(from_trace_codes_file(p1))
+            other = dict(from_trace_codes_file(p2))
+            if got != ref_trace_codes(t) or other != {9: 'Z'}:
+                bad = ('code-table-file-load-stale-or-wrong', {'step': i, 'text': t, 'got': repr(got), 'expected': repr(ref_trace_codes(t))})
+                break
+            got.clear()                                # a caller that modifies what it was given must not poison later loads
+    finally:
+        for f in os.listdir(d):
+            os.unlink(os.path.join(d, f))
+        os.rmdir(d)
+    return bad
+
+
 class C19(Check):
     pid = 'C19'
     level = 'exploration'
@@ -254,7 +286,8 @@ class C19(Check):
             'swap two decodable names, add a second id for a name and use it in the stream, the empty table, a one-entry table: 114 tables) x all sequences of <=2 (quick) / <=3 (thorough) operations over 6 operation '
             'kinds x 2 threads; oracle: listing shows NAME (0xid) from the supplied table or bare hex; traces(stream, T\') == '
             'traces(stream with ids renamed through T\', bundled table) in type, text and window; no trace for an absent id; two lazy listings with different tables requested from one object and consumed alternately; '
-            'callstacks / formatted_callstacks under every table edit that touches a sampler name. '
+            'callstacks / formatted_callstacks under every table edit that touches a sampler name; the file loader on a file rewritten '
+            '6 times with its modification time pinned, and the bundled table loaded twice. '
             'non-trivial = edited table whose edit touches a name used by the stream.')
     assumptions = ('part B reference is the tool itself on the renamed stream under the bundled table (metamorphic)',
                    'lines are "hex-id name [anything]"; blank lines are outside the grammar')
@@ -270,6 +303,7 @@ class C19(Check):
         out += [('tables', ch) for ch in chunked(streams, 60)]
         out.append(('two-listings',))
         out.append(('callstacks',))
+        out.append(('file-loader',))
         return out
 
     def run_shard(self, desc, acc):
@@ -307,6 +341,21 @@ class C19(Check):
                     acc.case(nontrivial=True, transitions=2)
                     if bad:
                         acc.violation(bad[0] + ':two-lazy-listings', {'kind': 'two-listings', 'ops': [list(x) for x in opseq], 'edits': [l1, l2]}, bad[1])
+        elif desc[0] == 'file-loader':
+            bad = judge_file_loader()
+            acc.case(nontrivial=True, transitions=6)
+            acc.case(nontrivial=True, transitions=6)
+            if bad:
+                acc.violation(bad[0], {'kind': 'file-loader'}, bad[1])
+            from pykdebugparser.trace_codes import default_trace_codes
+            a = default_trace_codes()
+            a_copy = dict(a)
+            try:
+                a.clear()
+            except Exception:
+                pass
+            if dict(default_trace_codes()) != a_copy or a_copy != default_table():
+                acc.violation('bundled-table-load-not-repeatable', {'kind': 'file-loader'}, {})
         elif desc[0] == 'callstacks':
             for label, fn in edits():
                 if not any(n in label for n in ('PERF_', 'bundled', 'empty', 'only-one', 'BSC_open')):
@@ -336,6 +385,9 @@ class C19(Check):
             d = dict(edits())
             bad = judge_two_listings([tuple(x) for x in case['ops']], case['edits'][0], d[case['edits'][0]], case['edits'][1], d[case['edits'][1]])
             return [(bad[0] + ':two-lazy-listings', bad[1])] if bad else []
+        if case['kind'] == 'file-loader':
+            bad = judge_file_loader()
+            return [bad] if bad else []
         if case['kind'] == 'callstacks':
             bad = judge_callstacks_table(case['edit'], dict(edits())[case['edit']])
             return [bad] if bad else []
